@@ -105,10 +105,19 @@ func c12Gen(seed int64, idx int) c12Case {
 			src.Add(yang.S("container", "top", yang.S("choice", "ch", str("a"), yang.S("case", "named", str("n1")))),
 				yang.S("augment", "/fc:top/fc:ch", str("b"), yang.S("container", "cb", str("x")), yang.S("case", "late", str("l1"))),
 				yang.S("grouping", "g", yang.S("choice", "gch", str("g1"))),
-				yang.S("container", "u", yang.S("uses", "g", yang.S("augment", "gch", str("g2"), yang.S("leaf-list", "g3", yang.S("type", "string"))))))
+				yang.S("container", "u", yang.S("uses", "g", yang.S("augment", "gch", str("g2"), yang.S("leaf-list", "g3", yang.S("type", "string"))))),
+				// a uses one and two levels below a data node that the augment of a uses adds
+				yang.S("grouping", "g2", yang.S("container", "gc", str("in-g2"))),
+				yang.S("grouping", "h2", str("hh")),
+				yang.S("container", "u2", yang.S("uses", "g2", yang.S("augment", "gc",
+					yang.S("container", "x", yang.S("uses", "h2", yang.S("refine", "hh", yang.S("default", "d")))),
+					yang.S("list", "y", yang.S("key", "k"), str("k"), yang.S("container", "deep", yang.S("uses", "h2")))))))
 			inl := head()
 			inl.Add(yang.S("container", "top", yang.S("choice", "ch", str("a"), yang.S("case", "named", str("n1")), str("b"), yang.S("container", "cb", str("x")), yang.S("case", "late", str("l1")))),
-				yang.S("container", "u", yang.S("choice", "gch", str("g1"), str("g2"), yang.S("leaf-list", "g3", yang.S("type", "string")))))
+				yang.S("container", "u", yang.S("choice", "gch", str("g1"), str("g2"), yang.S("leaf-list", "g3", yang.S("type", "string")))),
+				yang.S("container", "u2", yang.S("container", "gc", str("in-g2"),
+					yang.S("container", "x", yang.S("leaf", "hh", yang.S("type", "string"), yang.S("default", "d"))),
+					yang.S("list", "y", yang.S("key", "k"), str("k"), yang.S("container", "deep", str("hh"))))))
 			c.ms = &yang.ModSet{Mods: []*yang.Stmt{src}}
 			c.inlined = &yang.ModSet{Mods: []*yang.Stmt{inl}}
 			return c
